@@ -716,6 +716,11 @@ class Interp:
                 return _BINOPS[op](a, b)
             if loader.is_repo_class(type(other)):
                 pass  # fall through to dunder dispatch
+            elif op is ast.Mult and isinstance(other, bytes) and len(other) == 1 and type(a if sa else b) is SymInt:
+                n = a if sa else b
+                if self.truth(self.cmp_int(ast.LtE, n, 0)):
+                    return b""
+                return ConstData(other[0], n)
             else:
                 raise Unmodelled(f"{op.__name__} between symbolic int and {type(other).__name__}")
         ta, tb = type(a), type(b)
@@ -996,7 +1001,7 @@ class Interp:
         h = self.externals.get(("getitem", t))
         if h is not None:
             return h(self, obj, key)
-        if t is SymDict:
+        if getattr(t, "accepts_symbolic_keys", False):
             return obj[key]
         if is_sym(key) or (isinstance(key, slice) and contains_sym((key.start, key.stop, key.step))):
             if isinstance(obj, dict) and all(isinstance(k, int) for k in obj):
@@ -1018,7 +1023,7 @@ class Interp:
         h = self.externals.get(("setitem", t))
         if h is not None:
             return h(self, obj, key, value)
-        if is_sym(key) and t is not SymDict:
+        if is_sym(key) and not getattr(t, "accepts_symbolic_keys", False):
             raise Unmodelled(f"symbolic key stored into {t.__name__}")
         obj[key] = value
 
@@ -1681,6 +1686,9 @@ class Interp:
 
     def isinstance_(self, v, cls):
         t = type(v)
+        g = getattr(t, "ghost_of", None)
+        if g is not None and not isinstance(cls, tuple):
+            return issubclass(g, cls) or isinstance(v, cls)
         if t is SymInt:
             return isinstance(0, cls)
         if t is SymBool:
@@ -2464,6 +2472,7 @@ for _n in ("debug", "debug_once", "info", "warn", "warn_code", "error", "logger_
 
 
 class SymDict:
+    accepts_symbolic_keys = True
     """stands for a python dict whose keys may be symbolic ints; `get` / `[]` / `[]=` / `copy` / `in`
     decide key equality by branching, so every aliasing pattern of the keys is explored"""
 
@@ -2514,3 +2523,56 @@ class SymDict:
 
     def items(self):
         return list(self.items_)
+
+
+# --------------------------------------------------------------------------------------
+# ghost byte strings (C07): an immutable `bytes` object of unknown content / symbolic length
+
+
+class GhostData:
+    """byte k = data_<name>(k) (uninterpreted, range [0,255]); length n (int or SymInt)"""
+
+    ghost_of = bytes
+
+    def __init__(self, name, n):
+        self.name = name
+        self.n = n
+        self.f = z3.Function(f"data_{name}", z3.IntSort(), z3.IntSort())
+
+    def byte_expr(self, k):
+        return self.f(k)
+
+    def __repr__(self):
+        return f"GhostData({self.name})"
+
+
+class ConstData(GhostData):
+    """n copies of one byte (what `b"\\x00" * n` is for a symbolic n)"""
+
+    def __init__(self, byte, n):
+        self.name = f"const{byte}"
+        self.n = n
+        self.byte = byte
+
+    def byte_expr(self, k):
+        return z3.IntVal(self.byte)
+
+
+def _ghostdata_len(interp, d):
+    return d.n
+
+
+def _ghostdata_getitem(interp, d, key):
+    if isinstance(key, slice):
+        raise Unmodelled("slice of ghost data (use pointwise obligations)")
+    ki = iexpr(key)
+    if not interp.truth(SymBool(z3.And(ki >= 0, ki < iexpr(d.n)))):
+        raise IndexError("index out of range")
+    e = d.byte_expr(ki)
+    interp.ctx.assume(z3.And(e >= 0, e <= 255))
+    return SymInt(e) if not z3.is_int_value(e) else e.as_long()
+
+
+for _t in (GhostData, ConstData):
+    DEFAULT_EXTERNALS[("len", _t)] = _ghostdata_len
+    DEFAULT_EXTERNALS[("getitem", _t)] = _ghostdata_getitem
